@@ -22,6 +22,8 @@ pub enum Edit {
     ReverseTxs,
     AddForeignTx,
     MutateTxAmount,
+    /// the slip type of a payment's output changed (Normal -> BlockStake): another utxo key
+    MutateTxOutputType,
     MutateTxData,
     ZeroMerkleRootAndDropTx,
     ZeroMerkleRoot,
@@ -85,6 +87,13 @@ pub fn apply(edit: Edit, orig: &Block, donor: Option<&Block>, rng: &mut Rng) -> 
             let i = b.transactions.iter().position(|t| t.to.iter().any(|s| s.amount > 1))?;
             let j = b.transactions[i].to.iter().position(|s| s.amount > 1)?;
             b.transactions[i].to[j].amount -= 1;
+        }
+        Edit::MutateTxOutputType => {
+            use saito_core::core::consensus::slip::SlipType;
+            use saito_core::core::consensus::transaction::TransactionType;
+            let i = b.transactions.iter().position(|t| t.transaction_type == TransactionType::Normal && t.to.iter().any(|s| s.amount > 1 && s.slip_type == SlipType::Normal))?;
+            let j = b.transactions[i].to.iter().position(|s| s.amount > 1 && s.slip_type == SlipType::Normal)?;
+            b.transactions[i].to[j].slip_type = SlipType::BlockStake;
         }
         Edit::MutateTxData => {
             let i = rng.below(n as u64) as usize;
@@ -218,6 +227,7 @@ fn edits(rng: &mut Rng) -> Vec<Edit> {
         Edit::ReverseTxs,
         Edit::AddForeignTx,
         Edit::MutateTxAmount,
+        Edit::MutateTxOutputType,
         Edit::MutateTxData,
         Edit::ZeroMerkleRootAndDropTx,
         Edit::ZeroMerkleRoot,
@@ -247,7 +257,7 @@ fn edit_name(e: Edit) -> String {
 }
 
 fn touches_tx_list(e: Edit) -> bool {
-    matches!(e, Edit::DropTxAndFixRoot | Edit::StripAllTxs | Edit::SpvPlaceholder | Edit::RewriteInputCoordinates | Edit::DropTx | Edit::DuplicateTx | Edit::SwapTxs | Edit::ReverseTxs | Edit::AddForeignTx | Edit::MutateTxAmount | Edit::MutateTxData | Edit::ZeroMerkleRootAndDropTx)
+    matches!(e, Edit::DropTxAndFixRoot | Edit::StripAllTxs | Edit::SpvPlaceholder | Edit::RewriteInputCoordinates | Edit::DropTx | Edit::DuplicateTx | Edit::SwapTxs | Edit::ReverseTxs | Edit::AddForeignTx | Edit::MutateTxAmount | Edit::MutateTxOutputType | Edit::MutateTxData | Edit::ZeroMerkleRootAndDropTx)
 }
 
 fn verification_thread(node: &LNode) -> (VerificationThread, tokio::sync::mpsc::Receiver<ConsensusEvent>) {
@@ -501,7 +511,7 @@ pub async fn run(ctx: &Ctx, rep: &mut Report) {
                 if let Ok((sib, pnode)) = h.b.produce(&mut rng, &parent, &spec).await {
                     h.b.keep_producer(parent, pnode);
                     let sib_bytes = block_bytes(&sib);
-                    for e in [Edit::SwapTxs, Edit::DropTx, Edit::MutateTxAmount, Edit::FlipSignature, Edit::ZeroSignature, Edit::DuplicateTx, Edit::StripAllTxs, Edit::SpvPlaceholder, Edit::DropTxAndFixRoot] {
+                    for e in [Edit::SwapTxs, Edit::DropTx, Edit::MutateTxAmount, Edit::MutateTxOutputType, Edit::FlipSignature, Edit::ZeroSignature, Edit::DuplicateTx, Edit::StripAllTxs, Edit::SpvPlaceholder, Edit::DropTxAndFixRoot] {
                         let edited = match apply(e, &orig, prev_block.as_ref(), &mut rng) {
                             Some(b) => b,
                             None => continue,
